@@ -183,7 +183,14 @@ class BufferedStreamDataConsumer(Generic[_T_ReceivedPacket]):
             self.__save_remainder_in_buffer(remaining)
             return packet
         except StreamProtocolParseError as exc:
-            self.__save_remainder_in_buffer(exc.remaining_data)
+            # The remaining data can be a view to the wrapped buffer, which is overwritten from now on:
+            # the error must keep the unused trailing data as it was when it occurred.
+            remaining_view = exc.remaining_data
+            exc.remaining_data = remaining = bytes(remaining_view)
+            if getattr(exc.error, "remaining_data", None) is remaining_view:
+                exc.error.remaining_data = remaining
+            del remaining_view
+            self.__save_remainder_in_buffer(remaining)
             raise
         except Exception as exc:
             # Reset buffer, since we do not know if the buffer state is still valid
